@@ -10,7 +10,7 @@ import (
 )
 
 func init() {
-	register(&Rule{Name: "LINT-READ", Floor: 0, Run: ruleLintRead, Fixture: "fixture.singleRead,fixture.readsOnlyTheStart",
+	register(&Rule{Name: "LINT-READ", Floor: 0, Run: ruleLintRead, Fixture: "fixture.singleRead,fixture.readsOnlyTheStart,fixture.scansWithoutAskingForTheError",
 		Doc: "no single Read call on an io.Reader outside a loop whose byte count slices the buffer that is then used as the complete data (a Read may return fewer bytes than available); what io.Copy and io.ReadAll consume is the stream itself, not a wrapper that stops early (io.LimitReader, a SectionReader, a sized bufio.Reader), and nothing is copied with io.CopyN: a longer document is never cut off without a word"})
 	register(&Rule{Name: "LINT-RELIDX", Floor: 0, Run: ruleLintRelIdx, Fixture: "fixture.relativeIndex",
 		Doc: "an index obtained from Index*(s[lo:], …) is relative to lo; it must not be used to slice or index s itself without adding lo"})
@@ -111,6 +111,24 @@ func ruleLintRead(c *Ctx, r *Rep) {
 			break
 		}
 		return ""
+	}
+	// a bufio.Scanner gives up at the first line longer than its buffer (64 KiB unless told otherwise) and says so only
+	// through Err(): where a text is read line by line, the scanner's error is asked for and looked at
+	for _, fn := range c.Funcs {
+		k := 0
+		for _, ci := range callsIn(fn) {
+			if calleeFullName(ci) != "bufio.NewScanner" || ci.Value() == nil {
+				continue
+			}
+			k++
+			asked := false
+			for _, c2 := range callsIn(fn) {
+				if calleeFullName(c2) == "(*bufio.Scanner).Err" && len(c2.Common().Args) == 1 && c2.Common().Args[0] == ssa.Value(ci.Value()) && c2.Value() != nil && c2.Value().Referrers() != nil && len(*c2.Value().Referrers()) > 0 {
+					asked = true
+				}
+			}
+			r.Check(asked, sprintf("scanner-error-looked-at|%s#%d", c.FuncKey(fn), k), c.Pos(ci.Pos()), "the error of a line scanner is asked for and used (a line longer than its buffer ends the scan without a word)", okOr(asked, "Err() is used", "Err() is never looked at: everything from the first over-long line on is dropped without a word"))
+		}
 	}
 	for _, fn := range c.Funcs {
 		k := 0
